@@ -43,6 +43,25 @@ def gen_cases(ctx, n):
         bs = [r.randrange(256) for _ in range(ln)]
         out.append(_mk(r.randrange(65536), bs, [], {"len=4096+", "pieces=0"}))
         out.append(_mk(0, bs, [r.randrange(ln), 0, 1], {"len=4096+", "pieces=3"}))
+    # data followed by ITS OWN CRC (low byte first) and zero padding, the CRC field at every alignment 0..7 from the start of the call:
+    # the residue is 0x0000 and stays 0 through the zeros (word-at-a-time rewrites fold the running CRC into the next bytes – a
+    # folded word of zero is NOT always "zero bytes on a zero CRC"); also with a non-zero start value and the field at offset 0
+    from vlib import lhaenc as _E
+
+    def _crc(init, bs):
+        c = init
+        for b in bs:
+            c ^= b
+            for _ in range(8):
+                c = (c >> 1) ^ 0xA001 if c & 1 else c >> 1
+        return c
+    for _ in range(120):
+        init = r.choice([0, 0, r.randrange(1, 65536)])
+        pre = [r.randrange(256) for _ in range(r.choice([0, 0, 1, 2, 3, 4, 5, 6, 7, 8, 12, 16, 60, 64, 255, 256]))]
+        c = _crc(init, pre)
+        bs = pre + [c & 255, c >> 8] + [0] * r.choice([2, 2, 6, 14]) + [r.randrange(256) for _ in range(r.choice([0, 0, 3, 9]))]
+        ks = r.choice([[], [], [], [1], [len(pre)], [len(pre) + 2]])
+        out.append(_mk(init, bs, ks, {"own-crc-then-zeros", "field-offset%%4=%d" % (len(pre) % 4)}))
     # the accumulator inside the buffer (a record summed in place with its own CRC field): the bytes of the call are the
     # buffer as it stands at the call, the field holding the start value (little-endian on the platforms the harness runs on)
     import sys as _sys
